@@ -1,9 +1,10 @@
 #!/usr/bin/env python3
-"""Copies confirmed seeded changes from /tmp/seeded/<ID>/<name>/ to /verif/seeded/<ID>-<name>/ and (re)builds the detection
-matrix: for every seeded change, apply it to /repo, run the quick check of its property (and related ones), undo it."""
+"""Copies confirmed seeded changes from /tmp/seeded (round 1) and /tmp/seeded2 (round 2) <ID>/<name>/ to /verif/seeded/<ID>-<name>/
+and (re)builds the detection matrix: for every seeded change, apply it to a scratch worktree of /repo's HEAD, run the quick check of
+its property (and related ones) against that worktree through VERIF_REPO, remove the worktree.  /repo itself is never touched."""
 import json, os, shutil, subprocess, sys
 
-SRC = "/tmp/seeded"
+SRCS = [("/tmp/seeded", 1), ("/tmp/seeded2", 2)]
 DST = "/verif/seeded"
 RELATED = {"C02": ["C14"], "C03": ["C02", "C14"], "C14": ["C02"], "C10": ["C09"], "C18": [], "C08": []}
 STRENGTHENED = {
@@ -18,10 +19,38 @@ STRENGTHENED = {
     "C19-write-check-skipped-on-observe": "missed at first (Observe was only combined with GET); now combined with every method",
     "C19-percent-decode-after-check": "missed at first; the component alphabet gained percent-escaped forms",
     "C06-timeoutdict-read-no-refresh": "missed at first (needs depth 5); C06 gained long-transfer prefixes",
+    # round 2
+    "C01-nfc-string-encode": "missed at first; the string option alphabet gained non-NFC text",
+    "C02-token-strip-collision": "missed at first; C02 gained S-REQ-tokenwrap (tokens that differ only in leading zero bytes / wrap of the counter)",
+    "C03-unmatched-piggyback-keeps-retransmitting": "one of the two C03 round-2 changes was missed at first; C03 gained the piggy-backed response with a foreign token (ackresp-badtoken)",
+    "C04-error-forgets-recent": "one of the two C04 round-2 changes was missed at first; C04 gained the ICMP-error and mid-lifetime clock-jump events",
+    "C04-non-lifetime": "one of the two C04 round-2 changes was missed at first; C04 gained the ICMP-error and mid-lifetime clock-jump events",
+    "C05-block1-final-ack-more": "missed at first; the server misbehaviour grid (b1-more-on-final, b1-continue-on-final) moved into the quick tier for 2, 4 and 5 blocks",
+    "C05-block2-etag-vanishes": "missed at first; gained the b2-etag-dropped misbehaviour",
+    "C07-error-fanout-last-only": "missed at first; C07 gained two observations to one server under a transport error",
+    "C07-serial-half-boundary": "caught once the Block2 notification family and the 2^23 boundary numbers were in the alphabet",
+    "C08-last-flag-lost-on-coalesced-trigger": "missed at first; the model's 'last' became sticky across coalesced triggers",
+    "C08-rst-releases-backlogged-notification": "missed at first; registration end is now indexed before the event that causes it",
+    "C09-site-root-lookup": "missed at first; C09 gained unknown-path variants (root, deep, trailing slash)",
+    "C09-finished-exchange-drops-backlog": "missed at first; C09 gained pairs of slow requests from one peer",
+    "C10-backlog-holds-piggyback": "missed at first; C10 gained the family of requests arriving while an own CON is unacknowledged",
+    "C10-superseded-request-mid": "missed at first; C10 gained the same-token supersession family",
+    "C12-persist-uninit": "missed by C12 at first (caught by C13's crash enumeration); C12 gained the persist/reload probe of an uninitialised window",
+    "C13-response-init-own-piv": "missed at first; C13 gained the client-role operations Q / QP (own request answered by the peer)",
+    "C14-cancel-unlocks-peer": "missed at first; C14 gained the withdrawal of a held-back request as a fault",
+    "C15-maxsize-body-only": "missed at first; C15 gained the sweep over every frame size around the limit for every token length",
+    "C15-pong-skips-critical-check": "missed at first; the alphabet gained critical/elective options in Pong, Release and Abort",
 }
 
 
 def main():
+    for SRC, rnd in SRCS:
+        import_from(SRC, rnd)
+    if "--matrix" in sys.argv:
+        matrix()
+
+
+def import_from(SRC, rnd):
     confirmed = {}
     log = os.path.join(SRC, "confirm.log")
     if os.path.exists(log):
@@ -57,17 +86,15 @@ def main():
                 old = {}
                 if os.path.exists(os.path.join(out, "meta.json")):
                     old = json.load(open(os.path.join(out, "meta.json")))
-                m = {"property": pid, "name": name, "author": "independent sub-agent given only the property text",
+                m = {"property": pid, "name": name, "round": old.get("round", rnd), "author": "independent sub-agent given only the property text",
                      "what_it_breaks": meta.get("what_it_breaks"), "needs_to_manifest": meta.get("needs_to_manifest"),
                      "files": meta.get("files"),
                      "confirmation": {"by": "tools/confirm_seed.sh in a scratch worktree", "demo_passes_without_change": True,
                                       "demo_fails_with_change": True, "stable_suite_passes_with_change": True},
                      "rebased": os.path.exists(os.path.join(out, "patch.as-delivered.diff")),
-                     "history": STRENGTHENED.get("%s-%s" % (pid, name), "caught as built"),
+                     "history": STRENGTHENED.get("%s-%s" % (pid, name), old.get("history") or "caught as built"),
                      "detection": old.get("detection", {})}
                 json.dump(m, open(os.path.join(out, "meta.json"), "w"), indent=1)
-    if "--matrix" in sys.argv:
-        matrix()
 
 
 def matrix():
@@ -79,30 +106,41 @@ def matrix():
             continue
         meta = json.load(open(os.path.join(sd, "meta.json")))
         pid = meta["property"]
-        r = subprocess.run(["git", "-C", "/repo", "apply", os.path.join(sd, "patch.diff")], capture_output=True, text=True)
+        only = [a for a in sys.argv[1:] if not a.startswith("--")]
+        if only and not any(d.startswith(o) for o in only):
+            det = meta.get("detection", {})
+            own = det.get(pid, {})
+            rows.append((d, meta.get("round", 1), own.get("exit"), ", ".join(own.get("clauses", [])) or det.get("error", ""),
+                         ", ".join("%s=%s" % (k, v["exit"]) for k, v in det.items() if isinstance(v, dict) and k != pid)))
+            continue
+        wt = "/tmp/wt/matrix-%d" % os.getpid()
+        os.makedirs("/tmp/wt", exist_ok=True)
+        subprocess.run(["git", "-C", "/repo", "worktree", "add", "-q", "--detach", wt, "HEAD"], check=True)
         det = {"repo_head": head}
-        if r.returncode != 0:
-            det["error"] = "patch does not apply: " + r.stderr.strip()[:200]
-        else:
-            try:
+        try:
+            r = subprocess.run(["git", "-C", wt, "apply", os.path.join(sd, "patch.diff")], capture_output=True, text=True)
+            if r.returncode != 0:
+                det["error"] = "patch does not apply: " + r.stderr.strip()[:200]
+            else:
                 for cid in [pid] + RELATED.get(pid, []):
-                    c = subprocess.run(["/verif/check", cid, "--tier", "quick", "--no-evidence"], capture_output=True, text=True)
+                    c = subprocess.run(["/verif/check", cid, "--tier", "quick", "--no-evidence"], capture_output=True, text=True,
+                                       env=dict(os.environ, VERIF_REPO=wt))
                     clauses = sorted({l.split("clause=")[1].split(" ")[0] for l in c.stdout.splitlines() if "clause=" in l})
                     det[cid] = {"exit": c.returncode, "clauses": clauses[:6]}
-            finally:
-                subprocess.run(["git", "-C", "/repo", "checkout", "--", "."])
+        finally:
+            subprocess.run(["git", "-C", "/repo", "worktree", "remove", "--force", wt])
         meta["detection"] = det
         json.dump(meta, open(os.path.join(sd, "meta.json"), "w"), indent=1)
         own = det.get(pid, {})
-        rows.append((d, own.get("exit"), ", ".join(own.get("clauses", [])) or det.get("error", ""),
+        rows.append((d, meta.get("round", 1), own.get("exit"), ", ".join(own.get("clauses", [])) or det.get("error", ""),
                      ", ".join("%s=%s" % (k, v["exit"]) for k, v in det.items() if isinstance(v, dict) and k != pid)))
-        print(rows[-1])
+        print(rows[-1], flush=True)
     with open(os.path.join(DST, "MATRIX.md"), "w") as f:
         f.write("# Seeded changes vs. checks (quick tier, /repo at %s)\n\n" % head)
         f.write("exit 1 = the property's own check reports a violation with the change applied.\n\n")
-        f.write("| seeded change | own check exit | violated clauses | related checks |\n|---|---|---|---|\n")
+        f.write("| seeded change | round | own check exit | violated clauses | related checks |\n|---|---|---|---|---|\n")
         for r in rows:
-            f.write("| %s | %s | %s | %s |\n" % r)
+            f.write("| %s | %s | %s | %s | %s |\n" % r)
 
 
 if __name__ == "__main__":
